@@ -7,6 +7,7 @@ from .. import paths
 from ..core import FUNC, call_attr, calls_in, const, dotted, is_const, kwarg, norm, slice_parts, text, walk_local
 
 EXPLANATION = [
+    'C17.ack-bounded: an acknowledgement received on an ERTM channel is accepted only if it covers no more frames than are actually outstanding (same rule as C08.window), so a forged ReqSeq cannot move the acknowledged sequence number past what was sent and wedge the transmitter.',
     'C17.depth-balance: the SDP parser\'s nesting counter is restored on every normal exit of the recursive list parser (path counting).',
     'C17.feed-contained: every site that pushes received bytes into the HCI packet parser is inside try/except InvalidPacketError that lets the transport continue, or is a named plain event-loop callback where the escaping exception is only logged.',
     'C17.parser-reset: the push parser consumes what it needs, resets after emission and before raising on an unknown type byte, and contains sink exceptions (same rule as C02.push-parser).',
@@ -576,7 +577,13 @@ def depth_balance(ctx, rule='C17.depth-balance'):
             'a path returns with the nesting counter still raised: the counter leaks with every such container and a flat, well-formed element is eventually rejected as "too deeply nested"', p.loc(fn), bad[:3])
 
 
+def ack_bounded(ctx):
+    from . import c08
+    c08.window(ctx, rule='C17.ack-bounded')
+
+
 RULES = [
+    ('C17.ack-bounded', ack_bounded),
     ('C17.depth-balance', depth_balance),
     ('C17.feed-contained', feed_contained),
     ('C17.parser-reset', parser_reset),
